@@ -14,6 +14,8 @@ VALS = [
     {'id': 0, 't': '{x}', 'ok': True, 'kind': 'str'},
     {'id': 0, 't': '[y]', 'ok': True, 'kind': 'str'},
     {'id': 0, 't': '{a}', 'ok': True, 'kind': 'str'},     # a string equal to the twins
+    {'id': 0, 't': '{{x}}', 'ok': True, 'kind': 'str'},   # content that itself starts / ends with the delimiter
+    {'id': 0, 't': '[a[b]]', 'ok': True, 'kind': 'str'},
     {'id': 0, 't': '{x]', 'ok': False, 'kind': 'str'},
     {'id': 0, 't': 'x', 'ok': False, 'kind': 'str'},
     {'id': 0, 't': '[y}', 'ok': False, 'kind': 'str'},
@@ -40,6 +42,10 @@ def all_ops():
     o.append(op('extend', vs=[good[1], good[3]]))
     o.append(op('extend', vs=[good[0], good[2]]))
     o.append(op('extend', vs=[]))
+    o.append(op('extend', j=1, vs=[good[1], good[3]]))      # j = form of the iterable: 0 list, 1 iterator, 2 generator, 3 tuple
+    o.append(op('extend', j=2, vs=[good[4], good[0]]))
+    o.append(op('extend', j=3, vs=[good[2]]))
+    o.append(op('assign_self'))                              # owner.args = owner.args (store-back of the list the node already owns)
     for i in (-5, -2, -1, 0, 1, 3):
         o.append(op('pop', i=i))
         o.append(op('get', i=i))
@@ -107,7 +113,13 @@ class Real(object):
             elif k == 'insert':
                 a.insert(o['i'], self.val(o['v'])); r = ['ok']
             elif k == 'extend':
-                a.extend([self.val(v) for v in o['vs']]); r = ['ok']
+                vals = [self.val(v) for v in o['vs']]
+                form = o['j']
+                a.extend(vals if form == 0 else iter(vals) if form == 1 else (x for x in vals) if form == 2 else tuple(vals)); r = ['ok']
+            elif k == 'assign_self':
+                self.owner.args = self.owner.args
+                self.args = a = self.owner.args
+                r = ['ok']
             elif k == 'extend_self':
                 import signal
 
